@@ -802,7 +802,7 @@ func main() {
 			runCase(e, sh, ns, &c)
 		}
 	}
-	n := e.N(700, 9000)
+	n := e.N(450, 9000)
 	for i := 0; i < n; i++ {
 		if i%200 == 199 {
 			ns = pk.NewNodeStore() // keep the in-memory store small
